@@ -24,4 +24,32 @@ func registerRegen(p *Program) {
 	p.Intr[basePkg+".GetProjectIDFromBatchDenom"] = uf("project_id_of_denom")
 	p.Intr[basePkg+".GetClassIDFromProjectID"] = uf("class_id_of_project_id")
 	p.Intr[basePkg+".GetCreditTypeAbbrevFromClassID"] = uf("abbrev_of_class_id")
+
+	// FormatBasketDenom on opaque strings: an uninterpreted function of its arguments plus
+	// the lemmas proved at content level by the C14 harness C14_BasketDenom:
+	// the denom is a valid bank denom and is accepted by ValidateBasketDenom.
+	basketPkg := RegenPrefix + "x/ecocredit/v3/basket"
+	p.Intr[basketPkg+".FormatBasketDenom"] = func(x *Exec, c *CallCtx) Value {
+		name, abbrev := c.Args[0].(StrV), c.Args[1].(StrV)
+		if name.Atom == nil && abbrev.Atom == nil {
+			return x.CallFunction(c.Fn, c.Args, nil)
+		}
+		B := x.B
+		// the exponent -> prefix lookup is executed for real
+		pre := x.CallFunction(x.P.FindFunc(basePkg, "ExponentToPrefix"), []Value{c.Args[2]}, nil).(TupleV)
+		if n, _ := isNilValue(pre[1]); !n {
+			return TupleV{StrV{IsConst: true}, StrV{IsConst: true}, pre[1]}
+		}
+		x.Summ["lemma-summary:FormatBasketDenom"]++
+		pt := x.strAtomTerm(pre[0].(StrV))
+		d := B.App("format_basket_denom", smt.SStr, x.strAtomTerm(name), x.strAtomTerm(abbrev), pt)
+		dd := B.App("format_basket_display_denom", smt.SStr, x.strAtomTerm(name), x.strAtomTerm(abbrev))
+		if !x.lenAxiom[d.ID] {
+			x.lenAxiom[d.ID] = true
+			x.Assume(B.And(B.App("valid_sdk_denom", smt.SBool, d), B.App("valid_sdk_denom", smt.SBool, dd),
+				B.Not(B.Eq(d, B.StrConst(""))), B.Not(B.Eq(dd, B.StrConst("")))), "lemma: formatted basket denoms are valid bank denoms")
+			x.formattedBasketDenoms = append(x.formattedBasketDenoms, d)
+		}
+		return TupleV{StrV{Atom: d}, StrV{Atom: dd}, IfaceV{}}
+	}
 }
